@@ -46,7 +46,7 @@ package state
 // updates): structural postconditions, and a syntactic determinism obligation over its static call graph.
 //@ func updateState
 //@   checks deterministic
-//@   requires wf: state.NextValidators != nil && state.Validators != nil && header != nil && abciResponses != nil && abciResponses.EndBlock != nil
+//@   requires wf: state.NextValidators != nil && state.Validators != nil && header != nil && abciResponses != nil && abciResponses.EndBlock != nil && forall(i, 0, len(validatorUpdates), validatorUpdates[i] != nil)
 //@   ensures height: result1 == nil ==> (result0.LastBlockHeight == header.Height && result0.LastBlockID == blockID && result0.LastBlockTime == header.Time)
 //@   ensures same: result1 == nil ==> (result0.ChainID == state.ChainID && result0.InitialHeight == state.InitialHeight)
 //@   ensures valchange: result1 == nil ==> result0.LastHeightValidatorsChanged == ite(len(validatorUpdates) > 0, header.Height + 2, state.LastHeightValidatorsChanged)
@@ -86,3 +86,47 @@ package state
 //@   trusted
 //@   assigns heap
 //@   ensures wf: result2 == nil ==> (result0.Validators != nil && wfPowers(result0.Validators) && wfCached(result0.Validators))
+
+// ---- C08: historical validator sets ----
+//@ import tmstate github.com/tendermint/tendermint/proto/tendermint/state
+//@ import tmmath github.com/tendermint/tendermint/libs/math
+
+// The height whose record holds the full set needed for `height`: the later of the last checkpoint and the last change.
+//@ func lastStoredHeightFor
+//@   assigns nothing
+//@   ensures def: result == ite(height - height % 100000 > lastHeightChanged, height - height % 100000, lastHeightChanged)
+
+// ASSUMED about the protobuf conversions: a set converts to a non-nil message or an error.
+//@ extern types.ValidatorSet.ToProto
+//@   assigns nothing
+//@   ensures some: result1 == nil ==> result0 != nil
+//@ extern tmstate.ValidatorsInfo.Marshal
+//@   assigns nothing
+
+// The full set is persisted exactly at the height it last changed and at checkpoint heights; a record is written
+// under the key of its height; a change height in the future is refused.
+//@ func dbStore.saveValidatorsInfo
+//@   assigns dbstate
+//@   ensures order: lastHeightChanged > height ==> result != nil
+//@   ensures stored: result == nil ==> dbhas(store.db, calcValidatorsKey(height))
+//@   atcall ValidatorsInfo.Marshal full: (arg0.ValidatorSet != nil <==> (height == lastHeightChanged || height % 100000 == 0)) && arg0.LastHeightChanged == lastHeightChanged
+
+//@ func calcValidatorsKey
+//@   assigns nothing
+//@   purefn
+//@ func loadValidatorsInfo
+//@   trusted
+//@   assigns nothing
+//@   ensures some: result1 == nil ==> result0 != nil
+//@ extern types.ValidatorSetFromProto
+//@   assigns nothing
+//@   ensures wf: result1 == nil ==> (result0 != nil && wfSet(result0) && wfPowers(result0) && wfCached(result0) && prioBounded(result0))
+//@ extern tmmath.SafeConvertInt32
+//@   assigns nothing
+//@   ensures same: result == a
+
+// A past set is read from its own record when that holds the full set; otherwise from the record lastStoredHeightFor
+// names, advanced by exactly the number of heights in between.
+//@ func dbStore.LoadValidators
+//@   atcall loadValidatorsInfo which: arg1 == height || (valInfo != nil && arg1 == ite(height - height % 100000 > valInfo.LastHeightChanged, height - height % 100000, valInfo.LastHeightChanged))
+//@   atcall ValidatorSet.IncrementProposerPriority by: arg1 == height - lastStoredHeight && lastStoredHeight == ite(height - height % 100000 > valInfo.LastHeightChanged, height - height % 100000, valInfo.LastHeightChanged)
